@@ -87,8 +87,8 @@ func verifNewC24(maxSize, batchSize int, timeout time.Duration) *verifC24 {
 		w := &verifWorker{cmd: make(chan verifCmd)}
 		h.ws = append(h.ws, w)
 		go h.work(w)
+		verifSettle()
 	}
-	verifSettle()
 	return h
 }
 
@@ -315,40 +315,47 @@ const (
 	vActConsume
 	vActAdvance     // the whole timeout
 	vActAdvanceHalf // half of it
-	vActN
 )
+
+// enabled lists the actions that can be taken now (the others would be no-ops or impossible).
+func (h *verifC24) enabled() []int {
+	var acts []int
+	if h.idleWorker() != nil {
+		acts = append(acts, vActWriteOne, vActWriteTwo, vActFlush)
+	}
+	if h.allIdle() {
+		acts = append(acts, vActWriteBoth)
+	}
+	if h.visible {
+		acts = append(acts, vActConsume)
+	}
+	// time only matters while something has been written and not yet received
+	if h.timeout > 0 && (h.pending() > 0 || !h.quiet()) {
+		acts = append(acts, vActAdvance, vActAdvanceHalf)
+	}
+	return acts
+}
 
 func (h *verifC24) step(act int) {
 	wasQuiet, before := h.quiet(), h.pending()
 	switch act {
-	case vActWriteOne, vActWriteTwo:
-		wk := h.idleWorker()
-		verifAssume(wk != nil)
-		if act == vActWriteOne {
-			h.command(wk, verifCmd{h.newWrite(1, true, true)})
-		} else {
-			h.command(wk, verifCmd{h.newWrite(2, false, false)})
-		}
+	case vActWriteOne:
+		h.command(h.idleWorker(), verifCmd{h.newWrite(1, true, true)})
+	case vActWriteTwo:
+		h.command(h.idleWorker(), verifCmd{h.newWrite(2, false, false)})
 	case vActWriteBoth:
-		verifAssume(h.allIdle())
 		w0, w1 := h.newWrite(1, false, false), h.newWrite(2, true, false)
 		h.command(h.ws[0], verifCmd{w0})
 		h.command(h.ws[1], verifCmd{w1})
 	case vActFlush:
-		wk := h.idleWorker()
-		verifAssume(wk != nil)
-		h.command(wk, verifCmd{})
+		h.command(h.idleWorker(), verifCmd{})
 	case vActConsume:
-		verifAssume(h.visible)
 		h.consume()
 		return
-	case vActAdvance, vActAdvanceHalf:
-		verifAssume(h.timeout > 0)
-		d := int64(h.timeout)
-		if act == vActAdvanceHalf {
-			d /= 2
-		}
-		verifAdvanceClock(d)
+	case vActAdvance:
+		verifAdvanceClock(int64(h.timeout))
+	case vActAdvanceHalf:
+		verifAdvanceClock(int64(h.timeout) / 2)
 	}
 	verifSettle()
 	h.observe()
@@ -363,12 +370,8 @@ func (h *verifC24) step(act int) {
 			}
 		}
 	case vActAdvance, vActAdvanceHalf:
-		if wasQuiet {
-			if before == 0 {
-				verifAssert("C24-no-empty-batch", len(h.q.C) == 0)
-			} else if len(h.q.C) == 1 {
-				h.expect = before
-			}
+		if wasQuiet && len(h.q.C) == 1 {
+			h.expect = before
 		}
 	}
 }
@@ -401,7 +404,8 @@ func verifC24Run(steps int, batchSize int, timeout time.Duration, maxSize int) {
 	h := verifNewC24(maxSize, batchSize, timeout)
 	defer h.cleanup()
 	for s := 0; s < steps; s++ {
-		h.step(verifChoice(verifName("act", s), vActN))
+		acts := h.enabled()
+		h.step(acts[verifChoice(verifName("act", s), len(acts))])
 	}
 	h.finish()
 }
@@ -409,9 +413,9 @@ func verifC24Run(steps int, batchSize int, timeout time.Duration, maxSize int) {
 // VerifC24Schedule: every schedule of K actions for batch size 1..3, timeout off/on, queue
 // capacity 1 or 3.
 func VerifC24Schedule() {
-	k := 5
+	k := 4
 	if verifTier() == 1 {
-		k = 6
+		k = 5
 	}
 	batchSize := 1 + verifChoice("batchSize", 3)
 	timeout := time.Duration(0)
@@ -425,14 +429,10 @@ func VerifC24Schedule() {
 	verifC24Run(k, batchSize, timeout, maxSize)
 }
 
-// VerifC24Deep: longer schedules on the configuration in which callers park soonest
-// (capacity 1) with a timeout, batch size 1..2.
+// VerifC24Deep (thorough tier): schedules of 6 actions on the configuration in which callers
+// park soonest (capacity 1), batch size 2, with a timeout.
 func VerifC24Deep() {
-	k := 6
-	if verifTier() == 1 {
-		k = 7
-	}
-	verifC24Run(k, 1+verifChoice("batchSize", 2), verifC24Timeout, 1)
+	verifC24Run(6, 2, verifC24Timeout, 1)
 }
 
 // VerifC24Merge: mergeQueued alone over a slice of up to 4 queued writes with symbolic sequence
